@@ -60,9 +60,10 @@ def case_st(draw):
             steps.append({'do': 'idle', 'dt': draw(st.sampled_from([0.25, I / 2, T, I + T]))})
     end = draw(st.sampled_from(['client', 'server', 'none']))
     pre = draw(st.sampled_from([0, 0, 0, 1, 3, 17]))
+    greets = draw(st.sampled_from([0, 0, 0, 1, 3]))
     return {'impl': impl, 'transports': transports, 'I': I, 'T': T,
             'async_handlers': draw(st.booleans()), 'steps': steps, 'end': end,
-            'send_in_connect': pre}
+            'send_in_connect': pre, 'server_greets': greets}
 
 
 def tagged(side, seq, p):
@@ -84,6 +85,9 @@ def check_case(case, ctx=None, idle_scale=1.0):
     h = (TClientHarness if impl == 'thread' else AClientHarness)(cfg)
     I, T = case['I'], case['T']
     csent, ssent = [], []
+    greets = [tagged('s', 2000 + i, 'greet') for i in range(case.get('server_greets', 0))]
+    h.world.app_log.connect_sends = list(greets)
+    ssent.extend(greets)
     try:
         pre = case.get('send_in_connect', 0)
         if pre:
@@ -97,6 +101,7 @@ def check_case(case, ctx=None, idle_scale=1.0):
                             h.client.send(m)
                         else:
                             h.loop.create_task(h.client.send(m))
+                return None
             h.log.on_event = on_event
         c = h.client_call('connect', 'http://localhost:5000', transports=case['transports'])
         h.run_until(lambda: c.done, 30)
